@@ -71,7 +71,12 @@ def _chunk(args):
         if S is None:
             agg["status"]["skipped"] += 1
             continue
-        res = pr.run(S)
+        try:
+            res = pr.run(S)
+        except Exception as e:       # a runner must never take the worker (and with it the whole batch) down
+            import traceback
+            res = {"status": "harness", "prop": None, "clause": "runner-raised:" + type(e).__name__,
+                   "msg": "".join(traceback.format_exception(type(e), e, e.__traceback__))[-3000:], "step": 0}
         agg["n"] += 1
         st = res["status"]
         if st == "hang":
